@@ -309,6 +309,18 @@ def run(ctx):
             if not ok:
                 r3.violate("C02|R3|%s" % suf, "media type decision for %r (%s): %s" % (suf, ty, why), mfn.file, line, mfn.def_)
 
+        # every extension of the reviewed table is still decided (a suffix constant changed to something else drops its type silently)
+        decided = {suf.lower() for _k, suf, _t, _l in flat}
+        reviewed_decided = ctx.table("mime_expected").get("decided_at_review")
+        missing_ = sorted(e_ for e_ in set(reviewed_decided or []) - decided if default not in (expected.get(e_) or []))
+        if len(missing_) > 3:
+            # many decisions out of sight at once: the chain has been rewritten in a form this extraction does not read; no verdict
+            r3.note("%d reviewed extensions have no decision this extraction can see (%s ...): coverage of the reviewed table is not decided" % (len(missing_), missing_[:4]))
+            missing_ = []
+        if reviewed_decided:
+            for ext in missing_:
+                r3.instance({"suffix": ext, "decided": False}, False)
+                r3.violate("C02|R3|%s|no-longer-decided" % ext, "detect_mime_type no longer has a decision for %r (reviewed table: %s): files with that extension are served as %s" % (ext, expected.get(ext), default), mfn.file, mfn.span["line"], mfn.def_)
         # every decision is a SUFFIX test: a starts_with / contains / == on the name decides by something else than the extension
         # (a test whose outcome is the default type anyway changes no answer and is left alone)
         for how, const_, ty, line in getattr(mime_decisions, "other_tests", []):
